@@ -89,13 +89,15 @@ Proof. exact @nonpositive_root_rejected. Qed.
 Print Assumptions C11_nonpositive_root_rejected.
 
 (* certified checker used on the implementation's output when the correspondence breaks *)
-Theorem C11_checker_sound : forall rnd n A X tol_s tol_c bound,
-  C11_checkb (R_ops rnd) n A X tol_s tol_c bound = true ->
+Theorem C11_checker_sound : forall rnd n A X V tol_s tol_c bound,
+  C11_checkb (R_ops rnd) n A X V tol_s tol_c bound = true ->
   (forall i j, (i < n)%nat -> (j < n)%nat -> Rabs (X i j - X j i) <= tol_s)
   /\ (forall i, (i < n)%nat -> 0 < X i i)
   /\ (forall i j, (i < n)%nat -> (j < n)%nat -> Rabs (X i j) <= bound)
   /\ (forall i j, (i < n)%nat -> (j < n)%nat ->
-        Rabs (mmul (R_ops rnd) n X A i j - mmul (R_ops rnd) n A X i j) <= tol_c).
+        Rabs (mmul (R_ops rnd) n X A i j - mmul (R_ops rnd) n A X i j) <= tol_c)
+  /\ (forall k, (k < n)%nat -> 0 < qform (R_ops rnd) n X (mcol V k)
+                                 <= bound * dot (R_ops rnd) n (mcol V k) (mcol V k)).
 Proof. exact C11_checkb_sound. Qed.
 Print Assumptions C11_checker_sound.
 
